@@ -61,6 +61,21 @@ theorem keys_vSetIns_fm (d : Data) (c : Ch) (bank id : Nat) (hk : c.kind = .fm b
       fun r op x a b c' => keys_ymW_other bank r id op x a b hid c'
     simp [o, keys_ymW_key, koff, hk]
 
+/-- the DAC enable / disable writes of `key_on_pcm` / `key_off_pcm` go to register 0x2b -/
+theorem keys_keyOffPcm (g : G) (c : Ch) : keys (keyOffPcm g c).2 = [] := by
+  unfold keyOffPcm; split <;> simp [keys]
+
+theorem keys_keyOnPcm (d : Data) (g : G) (c : Ch) : keys (keyOnPcm d g c).2 = [] := by
+  unfold keyOnPcm
+  split
+  · split <;> simp [keys]
+  · rfl
+
+theorem keys_chKeyOnPcm (d : Data) (g : G) (c : Ch) : keys (chKeyOnPcm d g c).2 = [] := by
+  unfold chKeyOnPcm; split
+  · exact keys_keyOnPcm d g c
+  · rfl
+
 /-- what `write_event` never changes: the kind, the track and the control/time part of the player -/
 structure SameCtl (c c' : Ch) : Prop where
   kind : c'.kind = c.kind
@@ -95,26 +110,24 @@ theorem setIns_fm (g : G) (c : Ch) (hk : c.kind = .fm bank id) :
     SameCtl c (setIns d g c).2.1 ∧ (setIns d g c).2.1.slur = c.slur ∧ (setIns d g c).2.1.keyOn = c.keyOn ∧
       (∀ x ∈ keys (setIns d g c).2.2, x = koff bank id) := by
   unfold setIns
-  split
-  · exact ⟨SameCtl.refl c, rfl, rfl, by simp⟩
-  · obtain ⟨k1, k2, k3, k4, k5⟩ := keys_vSetIns_fm d c bank id hk hid
-    have hk' : (vSetIns d c).1.kind = .fm bank id := by rw [k2]; exact hk
-    have sv := setVol_fm bank id hid (vSetIns d c).1 hk'
-    refine ⟨⟨?_, ?_, ?_, ?_, ?_, ?_⟩, ?_, ?_, ?_⟩
-    · simp only [sv.1]; exact k2
-    · simp only [sv.1]
-      show (vSetIns d c).1.root = c.root
-      unfold vSetIns; simp only [hk]; split <;> rfl
-    · simp only [sv.1]; show (vSetIns d c).1.ps.core = c.ps.core; rw [k5]
-    · simp only [sv.1]; show (vSetIns d c).1.ps.acc = c.ps.acc; rw [k5]
-    · simp only [sv.1]; show (vSetIns d c).1.ps.err = c.ps.err; rw [k5]
-    · simp only [sv.1]; show (vSetIns d c).1.ps.ch.trackState = c.ps.ch.trackState; rw [k5]
-    · simp only [sv.1]; exact k3
-    · simp only [sv.1]; exact k4
-    · intro x hx
-      simp only [keys_append, sv.2, List.append_nil, k1] at hx
-      split at hx <;> simp at hx
-      exact hx
+  obtain ⟨k1, k2, k3, k4, k5⟩ := keys_vSetIns_fm d c bank id hk hid
+  have hk' : (vSetIns d c).1.kind = .fm bank id := by rw [k2]; exact hk
+  have sv := setVol_fm bank id hid (vSetIns d c).1 hk'
+  refine ⟨⟨?_, ?_, ?_, ?_, ?_, ?_⟩, ?_, ?_, ?_⟩
+  · simp only [sv.1]; exact k2
+  · simp only [sv.1]
+    show (vSetIns d c).1.root = c.root
+    unfold vSetIns; simp only [hk]; split <;> rfl
+  · simp only [sv.1]; show (vSetIns d c).1.ps.core = c.ps.core; rw [k5]
+  · simp only [sv.1]; show (vSetIns d c).1.ps.acc = c.ps.acc; rw [k5]
+  · simp only [sv.1]; show (vSetIns d c).1.ps.err = c.ps.err; rw [k5]
+  · simp only [sv.1]; show (vSetIns d c).1.ps.ch.trackState = c.ps.ch.trackState; rw [k5]
+  · simp only [sv.1]; exact k3
+  · simp only [sv.1]; exact k4
+  · intro x hx
+    simp only [keys_append, sv.2, List.append_nil, k1] at hx
+    split at hx <;> simp at hx
+    exact hx
 
 include hid in
 theorem noteStart_fm (g : G) (c : Ch) (e : Event) (hk : c.kind = .fm bank id) (hs : c.slur = false) :
@@ -124,7 +137,7 @@ theorem noteStart_fm (g : G) (c : Ch) (e : Event) (hk : c.kind = .fm bank id) (h
   unfold noteStart
   simp only [hs, Bool.not_false, if_true]
   rw [keyOff_fm bank id _ (by exact hk)]
-  exact ⟨⟨hk ▸ rfl, rfl, rfl, rfl, rfl, rfl⟩, rfl, rfl, keys_koff bank id, rfl⟩
+  exact ⟨⟨hk ▸ rfl, rfl, rfl, rfl, rfl, rfl⟩, rfl, rfl, by rw [keys_append, keys_keyOffPcm, List.nil_append]; exact keys_koff bank id, rfl⟩
 
 include hid in
 theorem insOrVol_fm (g : G) (c : Ch) (hk : c.kind = .fm bank id) :
@@ -245,12 +258,12 @@ theorem writeEvent_summ (g : G) (c : Ch) (e : Event) (hk : c.kind = .fm bank id)
   rw [if_neg h3]
   by_cases h4 : e.type = ev_END
   · rw [if_pos h4, keyOff_fm bank id c hk]
-    exact ⟨⟨rfl, rfl, hs, by simp [keys_koff], by simp [keys_koff], fun _ => ⟨e, by simp, Or.inr (Or.inr (Or.inr h4))⟩,
+    exact ⟨⟨rfl, rfl, hs, by simp [keys_koff, keys_keyOffPcm], by simp [keys_koff, keys_keyOffPcm], fun _ => ⟨e, by simp, Or.inr (Or.inr (Or.inr h4))⟩,
       by simp [h2], fun h => h, fun h => Or.inl h⟩, SameCtl.refl c⟩
   rw [if_neg h4]
   by_cases h5 : e.type = ev_REST
   · rw [if_pos h5, keyOff_fm bank id c hk]
-    exact ⟨⟨rfl, rfl, hs, by simp [keys_koff], by simp [keys_koff], fun _ => ⟨e, by simp, Or.inr (Or.inr (Or.inl h5))⟩,
+    exact ⟨⟨rfl, rfl, hs, by simp [keys_koff, keys_keyOffPcm], by simp [keys_koff, keys_keyOffPcm], fun _ => ⟨e, by simp, Or.inr (Or.inr (Or.inl h5))⟩,
       by simp [h2], fun h => h, fun h => Or.inl h⟩, SameCtl.refl c⟩
   rw [if_neg h5, if_neg hns]
   have hnone : ∀ (c' : Ch) (o : List Wr), c'.kind = c.kind → c'.root = c.root → c'.slur = c.slur → c'.keyOn = c.keyOn →
@@ -594,10 +607,10 @@ include hid in
 /-- after the ticks: frequency write if the pitch changed (never register 0x28), then the
 deferred key-on -/
 theorem chAfter_fm (g : G) (c : Ch) (hk : c.kind = .fm bank id) (hg : g.err = none) (hs : c.slur = false) :
-    keys (chAfter g c).2.2 = (if c.keyOn then [kon bank id] else []) ∧
-      (chAfter g c).2.1.keyOn = false ∧ (chAfter g c).2.1.slur = false ∧
-      (chAfter g c).2.1.kind = c.kind ∧ (chAfter g c).2.1.root = c.root ∧ (chAfter g c).2.1.ps = c.ps ∧
-      (chAfter g c).2.1.pitch = u16 ((c.notePitch : Int) + c.insTranspose * 256) := by
+    keys (chAfter d g c).2.2 = (if c.keyOn then [kon bank id] else []) ∧
+      (chAfter d g c).2.1.keyOn = false ∧ (chAfter d g c).2.1.slur = false ∧
+      (chAfter d g c).2.1.kind = c.kind ∧ (chAfter d g c).2.1.root = c.root ∧ (chAfter d g c).2.1.ps = c.ps ∧
+      (chAfter d g c).2.1.pitch = u16 ((c.notePitch : Int) + c.insTranspose * 256) := by
   unfold chAfter
   simp only [hg, Option.isSome_none, Bool.false_eq_true, if_false]
   have he : chEnv g c = (g, c, []) := by simp [chEnv, hk, isPsg]
@@ -610,7 +623,7 @@ theorem chAfter_fm (g : G) (c : Ch) (hk : c.kind = .fm bank id) (hg : g.err = no
     · exact keys_vSetPitch_fm _ bank id hk hid
     · rfl
   have hk2 : (chPitch c).1.kind = .fm bank id := hk
-  rw [hp]
+  rw [hp, keys_chKeyOnPcm]
   unfold chKeyOn
   have hs2 : (chPitch c).1.slur = false := hs
   have hko : (chPitch c).1.keyOn = c.keyOn := rfl
@@ -659,11 +672,11 @@ theorem chUpdate_keys (hpl : PlainHooks song root) (hns : NoSlurHooks song root)
       cases hg1 : g1.err with
       | some x => left; simp [chAfter, hg1]
       | none =>
-        obtain ⟨k1, k2, k3, k4, k5, k6, _⟩ := chAfter_fm bank id hid g1 c1 a3.kind hg1 a3.slur
-        by_cases herr : (chAfter g1 c1).1.err.isSome = true
+        obtain ⟨k1, k2, k3, k4, k5, k6, _⟩ := chAfter_fm d bank id hid g1 c1 a3.kind hg1 a3.slur
+        by_cases herr : (chAfter d g1 c1).1.err.isSome = true
         · exact Or.inl herr
         right
-        have hs' : (⟨(chAfter g1 c1).2.1.ps.core, (chAfter g1 c1).2.1.ps.acc⟩ : PState) = s' := by
+        have hs' : (⟨(chAfter d g1 c1).2.1.ps.core, (chAfter d g1 c1).2.1.ps.acc⟩ : PState) = s' := by
           rw [k6]; cases s'; simp only [PState.mk.injEq]; exact ⟨a1, a2⟩
         refine ⟨by rw [hs']; exact hrel', ⟨k5.trans a3.root, k4.trans a3.kind, by rw [k6]; exact a3.err,
           by rw [k6]; exact a3.drum, k3⟩, k2, ?_, ?_, ?_, ?_, ?_⟩
